@@ -12,6 +12,7 @@ import (
 	"fmt"
 	"io"
 	"sync"
+	"sync/atomic"
 	"testing"
 
 	"github.com/kardiachain/go-kardia/lib/p2p/conn"
@@ -21,27 +22,27 @@ import (
 )
 
 var impostorVariants = []string{
-	"control.genuine-key",           // E really is V (independent implementation of an honest peer): must succeed
-	"sig-by-other-key",              // AuthSig{V.pub, Sign(challenge, E.priv)}
-	"sig-over-other-challenge",      // AuthSig{V.pub, Sign(challenge', V.priv)}: a signature V made over something else
+	"control.genuine-key",            // E really is V (independent implementation of an honest peer): must succeed
+	"sig-by-other-key",               // AuthSig{V.pub, Sign(challenge, E.priv)}
+	"sig-over-other-challenge",       // AuthSig{V.pub, Sign(challenge', V.priv)}: a signature V made over something else
 	"replayed-auth-parallel-session", // V's genuine AuthSigMessage captured in a parallel honest session V<->E
-	"random-sig",                    // AuthSig{V.pub, random bytes}
-	"random-auth-bytes",             // a correctly sealed frame with random bytes instead of an AuthSigMessage
-	"random-frame",                  // 1044 random bytes instead of a sealed frame
-	"wrong-key-frame",               // AuthSig{V.pub, Sign(challenge, V.priv)} sealed with the key of the other direction
-	"reflection",                    // E sends H's own handshake bytes back
-	"low-order-eph.claim-victim",    // small-order ephemeral key, AuthSig{V.pub, Sign(challenge, E.priv)}
-	"low-order-eph.own-identity",    // small-order ephemeral key and a genuine AuthSig of E's own key: the session key is public
+	"random-sig",                     // AuthSig{V.pub, random bytes}
+	"random-auth-bytes",              // a correctly sealed frame with random bytes instead of an AuthSigMessage
+	"random-frame",                   // 1044 random bytes instead of a sealed frame
+	"wrong-key-frame",                // AuthSig{V.pub, Sign(challenge, V.priv)} sealed with the key of the other direction
+	"reflection",                     // E sends H's own handshake bytes back
+	"low-order-eph.claim-victim",     // small-order ephemeral key, AuthSig{V.pub, Sign(challenge, E.priv)}
+	"low-order-eph.own-identity",     // small-order ephemeral key and a genuine AuthSig of E's own key: the session key is public
 }
 
 type impPlan struct {
-	Variant   string
-	H, V, E   int      // key indices: honest end, victim, impostor's own key
-	EphSeed   int      // E's ephemeral scalar
-	Arg       int      // variant parameter
-	Rand      []byte   // drawn random bytes
-	DataE     []int    // control: chunk sizes E sends after the handshake
-	DataH     []int    // control: chunk sizes H sends
+	Variant string
+	H, V, E int    // key indices: honest end, victim, impostor's own key
+	EphSeed int    // E's ephemeral scalar
+	Arg     int    // variant parameter
+	Rand    []byte // drawn random bytes
+	DataE   []int  // control: chunk sizes E sends after the handshake
+	DataH   []int  // control: chunk sizes H sends
 }
 
 func (p *impPlan) String() string {
@@ -288,9 +289,13 @@ func judgeImpostor(t ev.TB, p *impPlan, res *impResult) {
 		t.Fatalf("harness: %s\ncase: %s", res.harness, text)
 	}
 	if p.Variant == "control.genuine-key" {
-		// a harness that cannot complete an honest handshake proves nothing about impostors: inconclusive
+		// A harness that cannot complete an honest handshake proves nothing about impostors.  That is not a violation
+		// (the property does not promise interoperability with another implementation) but it makes the run
+		// inconclusive; it is reported when the test ends so that the search for accepted impostors goes on.
 		if !res.hOK || res.eErr != nil {
-			t.Fatalf("harness: inconclusive: the independent implementation could not complete an honest session with the real code (H: %v, ref: %v)\ncase: %s", res.hErr, res.eErr, text)
+			atomic.AddInt64(&controlFailed, 1)
+			controlDetail.Store(fmt.Sprintf("H: %v, ref: %v, case: %s", res.hErr, res.eErr, text))
+			return
 		}
 		if !samePub(res.hRemote, key(p.V).PublicKey) {
 			ev.Violation(t, "sc.remote-pubkey-wrong", text, "honest peer authenticated with key%d but RemotePubKey differs", p.V)
@@ -349,14 +354,24 @@ func drawImpostor(t *rapid.T) *impPlan {
 	return p
 }
 
+var (
+	controlFailed int64
+	controlDetail atomic.Value
+)
+
 func TestImpostor(t *testing.T) {
+	defer func() {
+		if n := atomic.LoadInt64(&controlFailed); n > 0 && !t.Failed() {
+			t.Fatalf("harness: inconclusive: the independent implementation could not complete %d honest sessions with the real code (%v)", n, controlDetail.Load())
+		}
+	}()
 	rapid.Check(t, func(t *rapid.T) {
 		p := drawImpostor(t)
 		res := runImpostor(p)
 		nt := p.Variant != "control.genuine-key"
 		ev.Case(nt, p.String(), "impostor", "impostor."+p.Variant)
-		if ev.WantSample("impostor." + p.Variant) {
-			ev.Sample("impostor."+p.Variant, p.String()+fmt.Sprintf(" => honest end: ok=%v err=%v", res.hOK, res.hErr))
+		if nt && ev.WantSample("impostor") {
+			ev.Sample("impostor", p.String()+fmt.Sprintf(" => honest end: ok=%v err=%v", res.hOK, res.hErr))
 		}
 		judgeImpostor(t, p, &res)
 	})
